@@ -42,6 +42,10 @@ def r1(ctx: Ctx) -> None:
 @rule("C16.R2", "halt decision: after a fill on a running target market, |p0 - p| >= |p0 * rate * (halts + 1)| stops that market, stamps the time, counts the halt and suspends the session's execution", "T7 comparator + effects (necessary condition)", floor=3)
 def r2(ctx: Ctx) -> None:
     f = ctx.func(f"{THR}.hooked_after_execution")
+    derived = [a for a in ("halting_time_started", "activation_count", "halting_time_length") if a in ctx.program.cls(THR).methods and ctx.program.cls(THR).methods[a].is_property]
+    if derived:
+        ctx.unrec(f, f.node, "state of the halt rule", f"{', '.join(derived)} is no stored field any more but computed from other state of the rule: how it relates to the halts that happened is not decided")
+        return
     M = "simulator.id2market[execution_log.market_id]"
     refs = [f"{M}._extract_data_by_time(0, {M}._market_prices, allow_none=False)", f"{M}.get_market_price(0)"]
     curs = [f"{M}._extract_data_by_time(None, {M}._market_prices, allow_none=False)", f"{M}.get_market_price()"]
@@ -82,7 +86,14 @@ def r2(ctx: Ctx) -> None:
                         want_dev = {poly_of(("bin", "-", ("sym", "P0"), ("sym", "P"))), poly_of(("bin", "-", ("sym", "P"), ("sym", "P0")))}
                         ok = poly_of(sub(thr_t)) == want_thr and poly_of(sub(dev_t)) in want_dev
                         detail = f"|{poly_of(sub(thr_t))}| <= |{poly_of(sub(dev_t))}|"
-                ctx.check(ok, f, f.node, "halt comparator", "market running and |p0*rate*(count+1)| <= |p0 - p|, p0 = that market's price at time 0, p = its current price", detail)
+                from ..kit import unknown_series
+
+                if not ok and len(cmpc) == 1 and "activation_count" not in key(cmpc[0][0]) and any(x[0] == "attr" and x[1] == ("sym", "self") and x[2] not in ("trigger_change_rate", "activation_count") for x in subterms(cmpc[0][0])):
+                    ctx.unrec(f, f.node, "halt comparator", "the number of halts so far is not read from activation_count but derived from other state of the rule: whether it counts the halts is not decided", detail)
+                elif not ok and unknown_series(*[c for c, _ in cmpc]):
+                    ctx.unrec(f, f.node, "halt comparator", "a price in the comparison is read from something that stands in for the recorded series (not the series itself)", detail)
+                else:
+                    ctx.check(ok, f, f.node, "halt comparator", "market running and |p0*rate*(count+1)| <= |p0 - p|, p0 = that market's price at time 0, p = its current price", detail)
                 tgt = [pol for c, pol, _ in bp.conds if strip_ver(c)[0] == "cmp" and strip_ver(c)[1] == "==" and {key(strip_ver(c)[2]), key(strip_ver(c)[3])} == {key(el), M}]
                 ctx.check(tgt == [True] and key(strip_ver(l.iter)) == "self.target_markets.values()", f, l.node, "only a target market is halted", "for m in targets: if m == <fill's market>", f"target test={tgt}")
                 got = {}
@@ -117,6 +128,10 @@ def _sub_cur(t: Term, cur_key: str) -> Term:
 @rule("C16.R3", "resumption is examined at each step begin of every target market and happens once the clock has passed halt start + length; a halted target market is left halted only for a stated reason", "T7 comparator + T3 justification of every non-resuming path", floor=2)
 def r3(ctx: Ctx) -> None:
     f = ctx.func(f"{THR}.hooked_before_step_for_market")
+    derived = [a for a in ("halting_time_started", "activation_count", "halting_time_length") if a in ctx.program.cls(THR).methods and ctx.program.cls(THR).methods[a].is_property]
+    if derived:
+        ctx.unrec(f, f.node, "state of the halt rule", f"{', '.join(derived)} is no stored field any more but computed from other state of the rule: how it relates to the halts that happened is not decided")
+        return
     want = cmp_nf(">", ("attr", ("sym", "market"), "time"), ("bin", "+", ("attr", ("sym", "self"), "halting_time_started"), ("attr", ("sym", "self"), "halting_time_length")), integer=True)
     wneg = cmp_nf("<=", ("attr", ("sym", "market"), "time"), ("bin", "+", ("attr", ("sym", "self"), "halting_time_started"), ("attr", ("sym", "self"), "halting_time_length")), integer=True)
 
